@@ -40,7 +40,8 @@ def opOKb (c : Cfg) (s : St) : Op → Bool
   | .next g _ =>
     idleExcept s.gens (some g) &&
       match s.gens[g]? with
-      | some gen => noReuseB c gen.attrs && (!(gen.st == GSt.fresh) || !s.k.procs.isEmpty)
+      | some gen => noReuseB c gen.attrs
+          && (!(gen.st == GSt.fresh) || (!s.k.procs.isEmpty && (c.drainFirst || s.flagged.isEmpty)))
       | none => true
   | .cacheClear => idleExcept s.gens none
   | .pids => !s.k.procs.isEmpty
@@ -79,7 +80,7 @@ theorem opOKb_sound {c : Cfg} {s : St} {op : Op} (h : opOKb c s op = true) : OpO
     have h2 := h.2
     rw [hg] at h2
     simp only [Bool.and_eq_true, Bool.or_eq_true, Bool.not_eq_true', beq_eq_false_iff_ne, ne_eq,
-      List.isEmpty_eq_false_iff] at h2
+      List.isEmpty_eq_false_iff, List.isEmpty_iff] at h2
     refine ⟨noReuseB_sound h2.1, fun hf => ?_⟩
     rcases h2.2 with h3 | h3
     · exact absurd hf h3
